@@ -376,7 +376,7 @@ namespace sim
       const std::uint8_t grp_tree[] = { OP_T_SOR_BT, OP_T_SOR_TC, OP_SEQ2, OP_SOR2, OP_STAR, OP_OPT, OP_PLUS, OP_AT, OP_NOT_AT, OP_TC_ANY_RF, OP_TC_RF, OP_MUST, OP_LIST, OP_MINI, OP_IF_THEN_ELSE, OP_UNTIL2 };
 
       const std::uint8_t atoms_consume[] = { ATOM_UTF16_BE_ANY, ATOM_UTF16_LE_RANGE, ATOM_UTF32_BE_ANY, ATOM_UINT64_ANY, ATOM_ISTR_ABC, ATOM_UNSIGNED, ATOM_SIGNED, ATOM_MAXIMUM, ATOM_RAW0, ATOM_STR_ABC, ATOM_KEYWORD_AB, ATOM_REP_ONE, ATOM_UTF8_ANY, ATOM_UINT16_ANY, ATOM_UINT32_ONE, ATOM_BYTES3, ATOM_LIST_DIGITS, ATOM_NAMED_DIGITS, ATOM_THREE_A, ATOM_IDENTIFIER, ATOM_EOL, ATOM_STR_CRLF, ATOM_DEEP9 };
-      const std::uint8_t atoms_exc[] = { ATOM_RAISE, ATOM_RAISE_MSG, ATOM_NAMED_AB, ATOM_NAMED_C, ATOM_NAMED_DIGITS, ATOM_APPLY, ATOM_ONE_A, ATOM_ANY, ATOM_STR_AB, ATOM_DEEP7 };
+      const std::uint8_t atoms_exc[] = { ATOM_DEEP10_BT, ATOM_DEEP9, ATOM_RAISE, ATOM_RAISE_MSG, ATOM_NAMED_AB, ATOM_NAMED_C, ATOM_NAMED_DIGITS, ATOM_APPLY, ATOM_ONE_A, ATOM_ANY, ATOM_STR_AB, ATOM_DEEP7 };
 
       template< std::size_t N >
       bool in_group( const std::uint8_t ( &g )[ N ], int v )
@@ -513,6 +513,7 @@ namespace sim
             case ATOM_NAMED_WS: return r.chance( 1, 2 ) ? " \n" : "";
             case ATOM_DEEP7: return r.chance( 1, 2 ) ? "bab" : "c";
             case ATOM_DEEP9: return r.chance( 1, 2 ) ? "bcab0" : "c";
+            case ATOM_DEEP10_BT: return r.chance( 1, 2 ) ? "bcaa" : ( r.chance( 1, 2 ) ? "a!" : "ca0" );
             case ATOM_LIST_DIGITS: return r.chance( 1, 2 ) ? "1, 22 ,3" : "5";
             default: return "";
          }
